@@ -1,4 +1,5 @@
 import ScrapliModel.Lemmas.SshCfg
+import ScrapliModel.Generated.SshArgv
 /-!
 # C14 — SSH connections honour strict host-key checking and the configured identity
 
@@ -20,6 +21,16 @@ theorem newSSHArgs_strict : newSSHArgs.strictKey = true := by decide
 
 /-- the system transport spawns `ssh` unless told otherwise -/
 theorem default_bin : Gen.Transport.defaultOpenBin = b!"ssh" := by decide
+
+/-- the body of `(*System).buildOpenArgs` as the translator renders it from the current source
+(`Generated/SshArgv.lean`) computes, for all inputs and whatever `OpenArgs` held before, exactly
+the hand-written model — so every theorem below is about the code as it is now -/
+theorem generated_buildOpenArgs_eq (a : Args) (s : SSHArgs) (extra pre : List Bytes) :
+    Gen.SshArgv.buildOpenArgs a s extra pre = buildOpenArgs a s extra := by
+  unfold Gen.SshArgv.buildOpenArgs buildOpenArgs
+  cases hs : s.strictKey <;> by_cases hu : a.user = [] <;> by_cases hk : s.knownHostsFile = [] <;>
+    by_cases hc : s.configFile = [] <;> by_cases hp : s.privateKeyPath = [] <;>
+    cases extra <;> simp [*]
 
 /-! ## system transport: shape of the argument vector -/
 
@@ -68,6 +79,141 @@ theorem argv_strict (a : Args) (s : SSHArgs) (extra : List Bytes) :
   unfold head userPart strictPart strictAt
   cases hs : s.strictKey <;> by_cases hu : a.user = [] <;> by_cases hk : s.knownHostsFile = [] <;>
     simp [*] <;> decide
+
+/-! ## system transport: what the argv means to ssh
+
+`sshParse` is our reading of OpenSSH's command-line rules (see `SshCfg.lean`; trusted, exercised
+against the real binary by the harness).  Under it, what scrapligo puts before the caller's extra
+arguments fixes the destination, port, user, the strict-checking mode and the known-hosts file,
+and no extra argument can displace them. -/
+
+/-- meaning of everything before the extra arguments -/
+def prefixEff (a : Args) (s : SSHArgs) : Eff :=
+  { host := some a.host, port := some (fmtInt a.port),
+    user := if a.user = [] then none else some a.user,
+    strict := some (if s.strictKey then b!"yes" else b!"no"),
+    knownHosts := if s.strictKey then (if s.knownHostsFile = [] then none else some s.knownHostsFile)
+                  else some (b!"/dev/null"),
+    cfg := some (if s.configFile = [] then b!"/dev/null" else s.configFile),
+    ids := if s.privateKeyPath = [] then [] else [s.privateKeyPath] }
+
+theorem two_append (x y : Bytes) (r : List Bytes) : [x, y] ++ r = x :: y :: r := rfl
+theorem four_append (x y z w : Bytes) (r : List Bytes) : [x, y, z, w] ++ r = x :: y :: z :: w :: r := rfl
+
+theorem prefix_meaning (a : Args) (s : SSHArgs) (rest : List Bytes) (hh : hostOk a.host = true) :
+    List.foldl step {} (head a ++ userPart a ++ strictPart s ++ cfgPart s ++ keyPart s ++ rest) =
+      List.foldl step (prefixEff a s) rest := by
+  have r0 : Ready ({} : Eff) := ⟨rfl, rfl, rfl⟩
+  obtain ⟨h0, r1⟩ := step_host (e := {}) (h := a.host) r0 rfl hh
+  -- head
+  simp only [List.append_assoc]
+  show List.foldl step {} (a.host :: b!"-p" :: fmtInt a.port ::
+      b!"-o" :: (b!"ConnectTimeout=" ++ fmtInt (timeoutSeconds a.timeoutNs)) ::
+      b!"-o" :: (b!"ServerAliveInterval=" ++ fmtInt (timeoutSeconds a.timeoutNs)) ::
+      (userPart a ++ (strictPart s ++ (cfgPart s ++ (keyPart s ++ rest))))) = _
+  rw [List.foldl_cons, h0, pair_p _ _ r1, applyOpt_p _ _ rfl]
+  have r2 := ready_upd_port (some (fmtInt a.port)) r1
+  rw [pair_o _ _ r2, applyOpt_connectTimeout, pair_o _ _ r2, applyOpt_serverAlive]
+  -- user
+  have hu : ∃ e : Eff, Ready e ∧ e.strict = none ∧ e.knownHosts = none ∧
+      e = { host := some a.host, port := some (fmtInt a.port),
+            user := if a.user = [] then none else some a.user } ∧
+      List.foldl step { host := some a.host, port := some (fmtInt a.port) }
+        (userPart a ++ (strictPart s ++ (cfgPart s ++ (keyPart s ++ rest)))) =
+      List.foldl step e (strictPart s ++ (cfgPart s ++ (keyPart s ++ rest))) := by
+    unfold userPart
+    by_cases h : a.user = []
+    · exact ⟨_, r2, rfl, rfl, by simp [h], by simp [h]⟩
+    · refine ⟨_, ready_upd_user (some a.user) r2, rfl, rfl, by simp [h], ?_⟩
+      simp only [h, if_false]
+      rw [two_append, pair_l _ _ r2, applyOpt_l _ _ rfl]
+  obtain ⟨e2, re2, hs2, hk2, he2, hfold2⟩ := hu
+  rw [hfold2]
+  -- strict part
+  have hst : ∃ e : Eff, Ready e ∧
+      e = { e2 with strict := some (if s.strictKey then b!"yes" else b!"no"),
+                    knownHosts := if s.strictKey then (if s.knownHostsFile = [] then none else some s.knownHostsFile)
+                                  else some (b!"/dev/null") } ∧
+      List.foldl step e2 (strictPart s ++ (cfgPart s ++ (keyPart s ++ rest))) =
+      List.foldl step e (cfgPart s ++ (keyPart s ++ rest)) := by
+    unfold strictPart
+    cases hs : s.strictKey
+    · -- not strict
+      have ra := ready_upd_strict (some (b!"no")) re2
+      refine ⟨_, ready_upd_kh (some (b!"/dev/null")) ra, by simp, ?_⟩
+      simp only [Bool.false_eq_true, if_false]
+      rw [four_append, pair_o _ _ re2]
+      rw [show (b!"StrictHostKeyChecking=no") = b!"StrictHostKeyChecking=" ++ b!"no" from rfl,
+        applyOpt_strict _ _ hs2, pair_o _ _ ra]
+      have hk3 : ({ e2 with strict := some (b!"no") } : Eff).knownHosts = none := hk2
+      rw [show (b!"UserKnownHostsFile=/dev/null") = b!"UserKnownHostsFile=" ++ b!"/dev/null" from rfl,
+        applyOpt_knownHosts _ _ hk3]
+    · by_cases hk : s.knownHostsFile = []
+      · refine ⟨_, ready_upd_strict (some (b!"yes")) re2, ?_, ?_⟩
+        · cases e2; simp at hk2; simp [hk, hk2]
+        · simp only [hk, if_true]
+          rw [two_append, pair_o _ _ re2]
+          rw [show (b!"StrictHostKeyChecking=yes") = b!"StrictHostKeyChecking=" ++ b!"yes" from rfl,
+            applyOpt_strict _ _ hs2]
+      · have ra := ready_upd_strict (some (b!"yes")) re2
+        refine ⟨_, ready_upd_kh (some s.knownHostsFile) ra, by simp [hk], ?_⟩
+        simp only [hk, if_true, if_false]
+        rw [four_append, pair_o _ _ re2]
+        have hk3 : ({ e2 with strict := some (b!"yes") } : Eff).knownHosts = none := hk2
+        rw [show (b!"StrictHostKeyChecking=yes") = b!"StrictHostKeyChecking=" ++ b!"yes" from rfl,
+          applyOpt_strict _ _ hs2, pair_o _ _ ra, applyOpt_knownHosts _ _ hk3]
+  obtain ⟨e3, re3, he3, hfold3⟩ := hst
+  rw [hfold3]
+  -- config file
+  unfold cfgPart
+  rw [two_append, pair_F _ _ re3, applyOpt_F]
+  have re4 := ready_upd_cfg (some (if s.configFile = [] then b!"/dev/null" else s.configFile)) re3
+  -- key
+  unfold keyPart
+  by_cases hp : s.privateKeyPath = []
+  · simp only [hp, if_true, List.nil_append]
+    congr 1
+    subst he3 he2
+    simp [prefixEff, hp]
+  · simp only [hp, if_false]
+    rw [two_append, pair_i _ _ re4, applyOpt_i]
+    congr 1
+    subst he3 he2
+    simp [prefixEff, hp]
+
+/-- `argv_effective`: for every configuration whose host is not option-like and for EVERY list
+of extra arguments, ssh (as we read its rules) connects to the configured host and port, as the
+configured user when one is set, with StrictHostKeyChecking `yes` iff strict checking is on and
+`no` otherwise, with the configured known-hosts file when strict (and `/dev/null` when not),
+and offers the configured key; without extra arguments the config file is the configured one or
+`/dev/null` and no other identity is named. -/
+theorem argv_effective (a : Args) (s : SSHArgs) (extra : List Bytes) (hh : hostOk a.host = true) :
+    let e := sshParse (buildOpenArgs a s extra)
+    e.host = some a.host ∧ e.port = some (fmtInt a.port) ∧
+    (a.user ≠ [] → e.user = some a.user) ∧
+    e.strict = some (if s.strictKey then b!"yes" else b!"no") ∧
+    (s.strictKey = false → e.knownHosts = some (b!"/dev/null")) ∧
+    (s.strictKey = true → s.knownHostsFile ≠ [] → e.knownHosts = some s.knownHostsFile) ∧
+    (s.privateKeyPath ≠ [] → s.privateKeyPath ∈ e.ids) ∧
+    (extra = [] → e = prefixEff a s) := by
+  intro e
+  have he : e = List.foldl step (prefixEff a s) extra := by
+    show sshParse (buildOpenArgs a s extra) = _
+    rw [argv_identity, sshParse, prefix_meaning a s extra hh]
+  obtain ⟨k1, k2, k3, k4, k5, k6⟩ := foldl_step_keeps extra (prefixEff a s)
+  rw [← he] at k1 k2 k3 k4 k5 k6
+  refine ⟨k1 _ rfl, k2 _ rfl, ?_, k4 _ rfl, ?_, ?_, ?_, ?_⟩
+  · intro hu; exact k3 _ (by simp [prefixEff, hu])
+  · intro hs; exact k5 _ (by simp [prefixEff, hs])
+  · intro hs hk; exact k5 _ (by simp [prefixEff, hs, hk])
+  · intro hp; exact k6 _ (by simp [prefixEff, hp])
+  · intro hx; rw [he, hx]; rfl
+
+example : hostOk (b!"r1.example.com") = true := by decide
+
+/-- the hypothesis is needed: an option-like host IS read as an option by ssh -/
+example : (sshParse (buildOpenArgs { host := b!"-oStrictHostKeyChecking=no", port := 22, timeoutNs := 0 }
+    { strictKey := true } [])).strict = some (b!"no") := by decide
 
 /-- the configuration does not itself contain the literal `lit` as a whole argument -/
 def Clean (lit : Bytes) (a : Args) (s : SSHArgs) (extra : List Bytes) : Prop :=
